@@ -98,6 +98,10 @@ func c15Gen(tier string, emit func(c15Case)) {
 	for _, name := range []string{"n1", "n2"} {
 		ops = append(ops, "RenameFirst:"+name, "RenamePrev:"+name)
 	}
+	// a route that is named first (NamedTo on a Route value that no router holds yet) and attached afterwards
+	for _, name := range []string{"n1", "n2"} {
+		ops = append(ops, "NamedToThenAttachTo:"+name)
+	}
 	// a route for ANOTHER method registered under the name with the very path of the previous registration
 	for _, name := range []string{"n1", "n2"} {
 		ops = append(ops, "AddNamedSamePathOtherMethod:"+name)
@@ -149,6 +153,10 @@ func c15Run(c c15Case, st *fw.Stats) []fw.Viol {
 				}
 				path = lastPath
 				rt = r.AddNamed(name, path, c13Noop, []string{"POST", "PUT", "DELETE"}[i%3])
+			case "NamedToThenAttachTo":
+				rt = rux.NewRoute(path, c13Noop, "GET")
+				rt.NamedTo(name, r)
+				rt.AttachTo(r)
 			case "AddNamed":
 				rt = r.AddNamed(name, path, c13Noop, "GET")
 			case "NewNamedRoute":
@@ -196,6 +204,11 @@ func c15Run(c c15Case, st *fw.Stats) []fw.Viol {
 				add("naming:last-wins", fmt.Sprintf("naming operations %v: GetRoute(%q) returns route %s, the route most recently registered under that name is %s", c.Ops, name, gp, rt.Path()))
 			} else if got.Name() != name && !strings.Contains(strings.Join(c.Ops, " "), "Rename") {
 				add("naming:name", fmt.Sprintf("naming operations %v: GetRoute(%q).Name() = %q", c.Ops, name, got.Name()))
+			}
+			// the route a name points at is a registered one: its own path reaches it
+			reqPath := strings.ReplaceAll(rt.Path(), "{id}", "5")
+			if m, _, _ := r.Match(rt.Methods()[0], reqPath); m == nil {
+				add("naming:not-registered", fmt.Sprintf("naming operations %v: GetRoute(%q) is %s %s, but %s %q matches no route", c.Ops, name, rt.Methods()[0], rt.Path(), rt.Methods()[0], reqPath))
 			}
 			if u := try(func() { r.BuildURL(name, "{id}", "5") }); u != nil {
 				add("naming:build-panic", fmt.Sprintf("naming operations %v: BuildURL(%q) panicked: %v", c.Ops, name, u))
@@ -366,7 +379,12 @@ func c15Run(c c15Case, st *fw.Stats) []fw.Viol {
 			st.Inc("skipped_not_normal_form", 1)
 			return
 		}
-		for _, extra := range c15Extras {
+		extras := c15Extras
+		if len(defs) > 0 {
+			// a query argument whose key is spelled like one of the route's variables (without braces)
+			extras = append(append([][][2]string{}, c15Extras...), [][2]string{{defs[0].name, "q9"}}, [][2]string{{defs[len(defs)-1].name, ""}, {"z", "1"}})
+		}
+		for _, extra := range extras {
 			st.Evals++
 			if len(defs) > 0 {
 				st.Nontrivial++
@@ -492,7 +510,7 @@ func c15Run(c c15Case, st *fw.Stats) []fw.Viol {
 var c15Spec = fw.Spec[c15Case]{
 	ID:    "C15",
 	Level: "model_checking",
-	Rule: "complete product: 24 named templates (static - also with '#', '?', '%25', ';', '&' and blanks in the literal text -, leading variable next to dynamic decoys whose literal first segment is one of the values, default / custom / global variable regexes, 1-3 variables, literal prefix and suffix around a variable, '.' in the literal text - also more dots than the shortest values have bytes) x ALL value tuples over 19 values (spaces, non-ASCII, %, ?, #, ;, encoded slash, dots, slash where the regex admits it) that satisfy the variables' regexes x 4 argument styles (M map, key/value pairs, BuildRequestURL builder, one builder object reused across routes) x 9 registrations (on a StrictLastSlash router with the template ending in a slash next to its slash-less sibling; on a caching router next to a second named route of the same template that serves HEAD, every URL asked with HEAD first; followed by a later route that spells the template's first variable as a literal equal to one of the values; on a caching router with two cache slots, every URL built and requested in two passes; on a caching router that answered 'no route' for every URL before the route existed; top-level AddNamed; NewNamedRoute + ToURL() + AddRoute inside a group; named after registration with NamedTo; after a POST route with the same skeleton and variable names but other variable regexes) x 4 sets of extra query arguments; " +
+	Rule: "complete product: 24 named templates (static - also with '#', '?', '%25', ';', '&' and blanks in the literal text -, leading variable next to dynamic decoys whose literal first segment is one of the values, default / custom / global variable regexes, 1-3 variables, literal prefix and suffix around a variable, '.' in the literal text - also more dots than the shortest values have bytes) x ALL value tuples over 19 values (spaces, non-ASCII, %, ?, #, ;, encoded slash, dots, slash where the regex admits it) that satisfy the variables' regexes x 4 argument styles (M map, key/value pairs, BuildRequestURL builder, one builder object reused across routes) x 9 registrations (on a StrictLastSlash router with the template ending in a slash next to its slash-less sibling; on a caching router next to a second named route of the same template that serves HEAD, every URL asked with HEAD first; followed by a later route that spells the template's first variable as a literal equal to one of the values; on a caching router with two cache slots, every URL built and requested in two passes; on a caching router that answered 'no route' for every URL before the route existed; top-level AddNamed; NewNamedRoute + ToURL() + AddRoute inside a group; named after registration with NamedTo; after a POST route with the same skeleton and variable names but other variable regexes) x 4-6 sets of extra query arguments (also keys spelled like a variable of the route); " +
 		"each built URL is matched (Match on u.Path) and requested (ServeHTTP on a request parsed from u.String()); naming: all sequences of <=3 (thorough 4) naming operations over 2 names x {AddNamed, NewNamedRoute+AddRoute, route.NamedTo on a new route, NamedTo renaming the first / the previous route}; non-trivial = a template with variables / a sequence of >=2 naming operations",
 	Assume: []string{"values containing '{' or '}' are excluded: Build substitutes in Go map order, which the harness cannot own", "routes without optional parts, as the statement says", "value tuples that spell a path which is not in normal form (white space or '/' at the very end) are skipped: path normalisation (C11) ignores those characters by design"},
 	Bounds: func(tier string) map[string]any {
